@@ -2655,9 +2655,16 @@ impl Zeroconf {
         }
 
         if let Some(records) = self.cache.get_srv(instance) {
+            let now = current_time_millis();
             for record in records {
                 if let Some(srv) = record.record.any().downcast_ref::<DnsSrv>() {
-                    if self.cache.get_addr(srv.host()).is_none() {
+                    // An address that is about to expire (e.g. withdrawn by a goodbye)
+                    // does not resolve the instance: it counts as missing here, too.
+                    let has_addr = self
+                        .cache
+                        .get_addr(srv.host())
+                        .is_some_and(|addrs| addrs.iter().any(|a| !a.record.expires_soon(now)));
+                    if !has_addr {
                         self.send_query_vec(&[(srv.host(), RRType::A), (srv.host(), RRType::AAAA)]);
                         return true;
                     }
